@@ -151,7 +151,13 @@ def run(ctx):
         sv = fors[1].target.id
         calls = [st for st in fors[1].body if isinstance(st, ast.Expr) and isinstance(st.value, ast.Call) and ast.unparse(st.value.func) == "_plot_scheduled_operation"]
         nested = [n for n in ast.walk(fors[1]) if isinstance(n, ast.Call) and ast.unparse(n.func) in ("_plot_scheduled_operation", "ax.broken_barh")]
-        if len(calls) != 1 or len(nested) != 1:
+        early = False
+        for st in fors[1].body:
+            if calls and st is calls[0]:
+                break
+            if any(isinstance(x, (ast.Continue, ast.Break, ast.Return)) for x in ast.walk(st)):
+                early = True
+        if len(calls) != 1 or len(nested) != 1 or early:
             ok = False
             chk.violation(
                 "R20.b", pms, fors[1],
@@ -167,19 +173,19 @@ def run(ctx):
                 chk.violation("R20.b", pms, c, "the bar is not drawn for the loop's scheduled operation", loc=pms.loc(c))
             else:
                 defs = ctx.flow.defs(pms)
-                ypos = defs.of(args[2])
-                yt = ast.unparse(ypos[-1][1]).replace(" ", "") if ypos else ""
+                yt = ctx.norm.xtext(pms, c.args[2]).replace(" ", "")
                 if mi not in yt or "_Y_POSITION_INCREMENT" not in yt:
                     ok = False
                     chk.violation("R20.b", pms, c, f"the bar's row `{yt}` is not derived from the machine index", loc=pms.loc(c))
-                col = defs.of(args[3])
-                ct = ast.unparse(col[-1][1]) if col else ""
+                ct = ctx.norm.xtext(pms, c.args[3])
                 if f"{sv}.job_id" not in ct:
                     ok = False
                     chk.violation("R20.b", pms, c, f"the bar colour `{ct}` does not depend on the operation's job", loc=pms.loc(c))
                 # legend patch uses the same colour variable, keyed by job id
                 patches = [n for n in ast.walk(fors[1]) if isinstance(n, ast.Call) and ast.unparse(n.func) == "Patch"]
-                if not patches or not any(k.arg == "facecolor" and ast.unparse(k.value) == args[3] for k in patches[0].keywords):
+                if not patches or not any(
+                    k.arg == "facecolor" and (ast.unparse(k.value) == args[3] or ctx.norm.xtext(pms, k.value) == ct) for k in patches[0].keywords
+                ):
                     ok = False
                     chk.violation("R20.b", pms, patches[0] if patches else None, "the legend patch of a job is not coloured with the colour of its bars")
     bb = [n for n in own_nodes(pso.node) if isinstance(n, ast.Call) and ast.unparse(n.func).endswith("broken_barh")] if pso is not None else []
@@ -315,9 +321,22 @@ def run(ctx):
 
     # ---------------------------------------------------------------- R20.e
     ca = repo.find_function("_configure_axes")
+    nodes = list(own_nodes(ca.node))
     src = ast.unparse(ca.node).replace(" ", "")
     oke = True
-    if "xlim=xlimifxlimisnotNoneelsemakespan" not in src and "xlim=makespanifxlimisNoneelsexlim" not in src:
+    # xlim defaults to the makespan when not given
+    dflt = False
+    for n in nodes:
+        if isinstance(n, ast.Assign) and ast.unparse(n.targets[0]) == "xlim":
+            v = n.value
+            par = ca.module.parents.get(n)
+            if isinstance(v, ast.IfExp):
+                t = ast.unparse(v).replace(" ", "")
+                if t in ("xlimifxlimisnotNoneelsemakespan", "makespanifxlimisNoneelsexlim"):
+                    dflt = True
+            elif isinstance(par, ast.If) and ast.unparse(par.test).replace(" ", "") == "xlimisNone" and ast.unparse(v) == "makespan" and not par.orelse:
+                dflt = True
+    if not dflt:
         oke = False
         chk.violation("R20.e", ca, None, "the x limit is not `xlim if given else makespan`")
     if "ax.set_xlim(0,xlim)" not in src:
@@ -326,7 +345,8 @@ def run(ctx):
     if "makespan=schedule.makespan()" not in src:
         oke = False
         chk.violation("R20.e", ca, None, "the makespan is not taken from the schedule")
-    if not ("xticks[-1]!=xlim" in src and "xticks.append(xlim)" in src):
+    last_tick = ("xticks[-1]!=xlim" in src and ("xticks.append(xlim)" in src or "xticks[-1]=xlim" in src))
+    if not last_tick:
         oke = False
         chk.violation("R20.e", ca, None, "the last tick is not forced to the axis limit")
     if oke:
